@@ -34,8 +34,10 @@ vars == <<st, q, done, claims, wk, gh>>
 Continuable == {"SUCCEEDED", "FAILED_CONTINUE", "SKIPPED", "REDIRECT"}
 Tracked     == JoinType \in {"DISCRIMINATOR", "N_OF_M"}
 Complete    == {"CANCELED", "SUCCEEDED", "STOPPED", "SKIPPED", "TERMINAL", "FAILED_CONTINUE"}
-MsgOf(w)    == CASE Scenario = "A" -> <<"StartStage", "d", w>>
-                 [] Scenario = "B" -> <<"CompleteStage", Branch[w], 1>>
+Starter(w)   == Scenario = "A" \/ (Scenario = "C" /\ Branch[w] = "d")     \* worker w holds a StartStage(d)
+Completer(w) == Scenario = "B" \/ (Scenario = "C" /\ Branch[w] # "d")     \* worker w holds CompleteStage(Branch[w])
+MsgOf(w)    == CASE Starter(w) -> <<"StartStage", "d", w>>
+                 [] Completer(w) -> <<"CompleteStage", Branch[w], 1>>
                  [] OTHER -> <<"StartStage", Branch[w], 1>>          \* "M" mutex siblings, "X" deferred-choice siblings
 NewMsg(typ, s) == <<typ, s, 100 + Cardinality({m \in q : m[3] >= 100})>>
 
@@ -65,7 +67,7 @@ Go(w, pc) == wk' = [wk EXCEPT ![w].pc = pc]
 
 (* ---- StartStage(d) ------------------------------------------------------------------------ *)
 SSRead(w) ==
-  /\ Scenario = "A" /\ wk[w].pc = "read"
+  /\ Starter(w) /\ wk[w].pc = "read"
   /\ LET sn == Snap("d") r == Ready(sn) IN
      wk' = [wk EXCEPT ![w] = [pc |-> IF MsgOf(w) \in done THEN "ack"
                                       ELSE IF r = "READY" /\ sn.status = "NOT_STARTED" THEN "claim"
@@ -83,7 +85,7 @@ SSClaim(w) ==   \* UPDATE .. WHERE version = :v AND status = 'NOT_STARTED'; lose
      ELSE /\ UNCHANGED <<st, gh>> /\ Go(w, "postmark")
   /\ UNCHANGED <<q, done, claims>>
 
-Target(w) == IF Scenario = "A" THEN "d" ELSE Branch[w]
+Target(w) == IF Starter(w) THEN "d" ELSE Branch[w]
 SSPlan(w) ==    \* plan commit: CAS on the version the claim produced; mark + StartTask in the same commit
   /\ wk[w].pc = "plan"
   /\ LET s == Target(w) IN
@@ -103,7 +105,7 @@ SSRequeue(w) ==  \* fired join: StartStage re-queued with retry_count + 1 (own c
 
 (* ---- CompleteStage(branch) ------------------------------------------------------------------ *)
 CSRead(w) ==
-  /\ Scenario = "B" /\ wk[w].pc = "read"
+  /\ Completer(w) /\ wk[w].pc = "read"
   /\ LET b == Branch[w] sn == Snap(b) IN
      wk' = [wk EXCEPT ![w] = [pc |-> IF MsgOf(w) \in done THEN "ack"
                                       ELSE IF Tracked /\ b \notin sn.dcb THEN "jointrack" ELSE "final",
@@ -198,6 +200,13 @@ BranchesRecorded == (AllDone /\ Scenario = "B") =>
                        /\ (Tracked => st["d"].cb = {Branch[w] : w \in Workers})
                        /\ gh.startStageD = Cardinality(Workers)
                        /\ \A w \in Workers : st[Branch[w]].status = "SUCCEEDED"
+(* Scenario "C" (a StartStage(d) sent by an early branch races with the CompleteStage of a later branch that
+   tracks itself on d): whatever the interleaving, d must end planned exactly once, or still NOT_STARTED with a
+   fresh StartStage(d) on its way - never claimed-but-unplanned with nothing left to plan it. *)
+JoinNotWedged == (AllDone /\ Scenario = "C") =>
+   \/ (gh.plans = 1 /\ gh.startTask = 1)
+   \/ (st["d"].status = "NOT_STARTED" /\ \E m \in q : m[1] = "StartStage" /\ m[2] = "d" /\ m[3] >= 100)
+
 (* C11: two stages sharing a mutex key are never RUNNING together; of a deferred-choice group exactly one
    stage is ever claimed and every other one gets its CancelStage *)
 MutexExclusive == Scenario = "M" => Cardinality({s \in DOMAIN st : st[s].status = "RUNNING"}) <= 1
